@@ -244,8 +244,10 @@ func H14_search() {
 		if pre != nil {
 			// recorded finding (same root as the C16 one): on a cache entry created by an unfiltered open the
 			// filtered search does not keep excluded documents out when they are listed as eligible
+			// (only on the selector path: with every document eligible the search takes the unfiltered route,
+			// which honours the caller's exclusion list)
 			for d := 0; d < nDocs; d++ {
-				if excl[d] && isElig[d] && vSkipKnown("C14-filtered-search-on-warm-cache-ignores-exclusions") {
+				if excl[d] && isElig[d] && len(elig) != nDocs && vSkipKnown("C14-filtered-search-on-warm-cache-ignores-exclusions") {
 					return
 				}
 			}
